@@ -135,3 +135,33 @@ pub fn c09_q_custom_nil_codec_decode() {
     let mut d = Decoder::new(&buf[..]);
     assert!(matches!(d.decode::<NilB>(), Ok(NilB { a: x, b: 0 }) if x == a));
 }
+
+#[cfg(feature = "alloc")]
+pub mod with_alloc {
+    use super::*;
+    use alloc::borrow::Cow;
+
+    /// `#[cbor(b(N))]` (nested form) and `#[b(N)]` on `Cow<'a, str>`: the decoded value BORROWS.
+    #[derive(Encode, Decode, PartialEq, Debug, Clone)]
+    pub struct CowS<'a> {
+        #[cbor(b(0))] pub s: Cow<'a, str>,
+        #[b(1)] pub t: Cow<'a, str>,
+        #[n(2)] pub x: u8,
+    }
+
+    #[kani::proof]
+    #[kani::unwind(8)]
+    #[kani::stub(minicbor::decode::Decoder::skip, crate::util::skip_r3_small)]
+    pub fn c09_q_cow_fields_borrow_from_input() {
+        let a: [u8; 3] = kani::any();
+        let buf = [0x83, 0x61, a[0] & 0x7f, 0x61, a[1] & 0x7f, 0x18, a[2], 0xff];
+        let mut d = Decoder::new(&buf[..]);
+        let r = d.decode::<CowS>();
+        assert!(r.is_ok());
+        let v = r.unwrap();
+        assert!(matches!(&v.s, Cow::Borrowed(x) if x.as_ptr() == unsafe { buf.as_ptr().add(2) }), "#[cbor(b(..))] Cow field is an owned copy");
+        assert!(matches!(&v.t, Cow::Borrowed(x) if x.as_ptr() == unsafe { buf.as_ptr().add(4) }), "#[b(..)] Cow field is an owned copy");
+        assert!(v.x == a[2] && d.position() == 7);
+        core::mem::forget(v);
+    }
+}
